@@ -169,3 +169,78 @@ def meta(idx: int, rf0: bool, rf1: bool) -> bool:
     if c is not None and c != a:
         return xs.fail(f"'{text}' has the definite outcome {a[1]} under {states} but {c} after resolving the UNKNOWN keys to { {k: alpha2[k].name for k in unknown} }", idx=idx, rf0=rf0, rf1=rf1)
     return True
+
+
+# ---------------------------------------------------------------------------------------------------------------------
+# redundant brackets w.r.t. the documented precedence, with mixed operator spellings (3 leaves, requirement keys only)
+# ---------------------------------------------------------------------------------------------------------------------
+PREC = {"O": 1, "X": 2, "U": 3}
+SPELLS = ({"U": "U", "O": "O", "X": "X"}, {"U": "∧", "O": "∨", "X": "⊻"}, {"U": "u", "O": "o", "X": "x"})
+P_ALPHAS = 8  # 8: all FULFILLED/UNFULFILLED assignments; 27: all assignments
+_PCASES = {}
+
+
+def _render_min(a, spell, counter):
+    if a[0] == "k":
+        return f"[{a[1]}]"
+    i = counter[0]
+    counter[0] += 1
+    sym = SPELLS[spell[i]][a[0]]
+    parts = []
+    for child in (a[1], a[2]):
+        txt = _render_min(child, spell, counter)
+        if child[0] != "k" and PREC[child[0]] < PREC[a[0]]:
+            txt = f"({txt})"
+        parts.append(txt)
+    return f"{parts[0]} {sym} {parts[1]}"
+
+
+def _render_full(a):
+    if a[0] == "k":
+        return f"[{a[1]}]"
+    return f"({_render_full(a[1])} {a[0]} {_render_full(a[2])})"
+
+
+def prec_cases():
+    if P_ALPHAS in _PCASES:
+        return _PCASES[P_ALPHAS]
+    out = []
+    k = [("k", "1"), ("k", "2"), ("k", "3")]
+    for o1 in "UOX":
+        for o2 in "UOX":
+            for shape in (0, 1):
+                a = (o1, (o2, k[0], k[1]), k[2]) if shape == 0 else (o1, k[0], (o2, k[1], k[2]))
+                for s1 in range(3):
+                    for s2 in range(3):
+                        if s1 == s2 == 0:
+                            continue
+                        if P_ALPHAS == 8 and (s1, s2) not in ((0, 1), (1, 0), (2, 1)):
+                            continue  # quick tier: letter/symbol mixes only
+                        mn = _render_min(a, (s1, s2), [0])
+                        full = _render_full(a)
+                        for ac in range(P_ALPHAS):
+                            out.append((mn, full, ac))
+    _PCASES[P_ALPHAS] = out
+    return out
+
+
+def prec(idx: int) -> bool:
+    """
+    pre: LO <= idx < HI
+    post: _
+    """
+    idx = xs.R(idx)
+    with xs.nt():
+        mn, full, ac = prec_cases()[idx]
+        if P_ALPHAS == 8:
+            alpha = {str(i + 1): env.STATES[(ac >> i) & 1] for i in range(3)}
+        else:
+            d = shapes.digits(ac, [3, 3, 3])
+            alpha = {str(i + 1): env.STATES[d[i]] for i in range(3)}
+    env.setup(rc=alpha)
+    a = _eval(full)
+    b = _eval(mn)
+    xs.reached()
+    if a[0] != "ok" or a != b:
+        return xs.fail(f"'{mn}' -> {b} but with the brackets that the documented precedence makes redundant: '{full}' -> {a} under { {k: v.name for k, v in alpha.items()} }", idx=idx)
+    return True
